@@ -179,11 +179,12 @@ def run_dc_case(ctx, case, seed, pending):
     # model request
     vs = S.mk_settings(dict(case, ver=4), True)
     vs.dc_sig_algs = [tuple(x) for x in case.get("offer_dc", [dc_sid])]
-    dform = {"ok": "ok", "bitflip": "garbage", "short": "garbage", "empty": "empty", "otherkey": "ok"}[case.get("dcform", "ok")]
+    dform = {"ok": "ok", "bitflip": "garbage", "short": "garbage", "empty": "empty", "otherkey": "ok"}.get(
+        case.get("dcform", "ok"), "garbage")
     dsigner = "other" if case.get("dcform") == "otherkey" else "ee"
     cvf = case.get("cvform", "ok")
     sig = {"ok": "s:dckey:%d.%d:this" % dc_sid, "bitflip": "garbage", "empty": "empty", "short": "garbage",
-           "certkey": "s:ee:%d.%d:this" % cert_sig, "otherkey": "s:other:%d.%d:this" % dc_sid}[cvf]
+           "certkey": "s:ee:%d.%d:this" % cert_sig, "otherkey": "s:other:%d.%d:this" % dc_sid}.get(cvf, "garbage")
     dcalg = S.DC_ALGS[case["dckind"]]
     line = " ".join(["site", "site:cv13c", "ver:4", "cert:" + tok, "set:" + PL.set_token(vs.validate()),
                      "ch:" + PL.ids(cap.ch_sigalgs or []), "label:%d.%d" % dc_sid, "sig:" + sig, "prf:" + cap.prf(),
